@@ -61,6 +61,11 @@ DESCRIPTIONS.update({
  "C01|rule-not-enforced|go>go|ct=application/json|in=AnnDisc": "message with a discriminated oneof as JSON request: because the variant is mis-decoded, a request whose variant violates a validation rule is dispatched instead of being rejected",
 })
 
+DESCRIPTIONS.update({
+ "C09|published-headers-rejected|go|listed-twice-case-variant": "when a method re-declares a service-level header with different letter case, the OpenAPI document lists both spellings as separate header parameters (CombineHeaders merges by exact name) while the Go server merges case-insensitively: a request carrying both published parameters is rejected",
+ "C09|published-headers-rejected|ts|listed-twice-case-variant": "when a method re-declares a service-level header with different letter case, the OpenAPI document lists both spellings as separate header parameters; the TS server validates both declarations against the single (case-insensitive) HTTP header and rejects a request that follows the document",
+})
+
 def describe(sig):
     best = None
     for k, v in DESCRIPTIONS.items():
